@@ -77,6 +77,7 @@ def gen_c01(rng):
     instance = {}
     clients = []
     used = set()
+    shared_table = {"rows": [[1, "a"], [2, "b"], [3, {"k": [4, 5, 6]}]], "n": 3, "nested": {"x": [1, 2, 3, [4, [5, [6]]]]}}
     for ci in range(rng.randint(1, 3)):
         ops = []
         for oi in range(rng.randint(1, 4)):
@@ -89,6 +90,9 @@ def gen_c01(rng):
                         used.add(name)
                         break
                 spec = {"kind": "const", "ret": gen_value(rng)}
+                if rng.random() < 0.25:
+                    # several callables return the very same container object (a shared table)
+                    spec = {"kind": "shared", "ret": shared_table}
                 if "." in name and rng.random() < 0.5:
                     instance[name] = spec
                 else:
@@ -96,7 +100,9 @@ def gen_c01(rng):
                 if rng.random() < 0.5:
                     params = [gen_value(rng) for _ in range(rng.choice([0, 1, 1, 2, 3]))]
                 else:
-                    params = dict((rng.choice(["a", "b", "x1", "k_2", "é", "kw"]), gen_value(rng)) for _ in range(rng.choice([0, 1, 2, 3])))
+                    params = dict((rng.choice(["a", "b", "x1", "k_2", "é", "kw", "func", "method", "params", "args", "kwargs",
+                                               "config", "name", "request", "cls", "id", "result"]), gen_value(rng))
+                                  for _ in range(rng.choice([0, 1, 2, 3])))
                 return name, params
 
             k = rng.random()
@@ -226,6 +232,9 @@ class C01Scenario(object):
         return gen_c01(rng)
 
     def run(self, program, decider, chooser=None):
+        from . import env
+
+        env.net_seams(lines=("server", "client", "pool", "jsonclass"))  # shared values are converted by jsonclass.dump on several threads
         s, run, verdict = sysim.execute(program, decider, chooser)
         viol, h = analyse_c01(program, s, run, verdict)
         p = dict(s.probes)
@@ -574,13 +583,13 @@ def gen_c13(rng):
 def gen_c13_small(rng):
     """Few short concurrent dispatcher threads: every pre-emption point is likely to be tried."""
     sv = {"kind": "dispatcher", "family": "tcp", "version": rng.choice([2.0, 2.0, 1.0]), "handlers": rng.random() < 0.3}
-    methods = {"echo": {"kind": "echo"}, "fail": {"kind": "fail"}, "sub": {"kind": "sub"}}
+    methods = {"echo": {"kind": "echo"}, "fail": {"kind": "fail"}, "sub": {"kind": "sub"}, "bad": {"kind": "baddump"}}
     clients = []
     for ci in range(rng.randint(2, 3)):
         ops = []
         for oi in range(rng.randint(1, 2)):
             tok = "c%do%d" % (ci, oi)
-            m = rng.choice(["echo", "echo", "fail", "sub", "nope"])
+            m = rng.choice(["echo", "echo", "fail", "sub", "nope", "bad"])
             ops.append(["raw", rng.choice([
                 '{"method": "%s", "params": ["%s"], "id": "%s"}' % (m, tok, tok),
                 '{"method": "%s", "params": ["%s"], "id": "%s"}' % (m, tok, tok),
@@ -605,8 +614,8 @@ def gen_c13_full(rng):
     elif cd < 0.3:
         sv["custom_dispatch"] = "instance"
     methods = {"echo": {"kind": "echo"}, "fail": {"kind": "fail"}, "two": {"kind": "two"}, "fault": {"kind": "fault"},
-               "slow": {"kind": "slow", "d": rng.choice([0.25, 0.5, 1.0])}, "sub": {"kind": "sub"}}
-    names = ["echo", "echo", "fail", "nope", "two", "slow", "slow", "fault", "sub"]
+               "slow": {"kind": "slow", "d": rng.choice([0.25, 0.5, 1.0])}, "sub": {"kind": "sub"}, "bad": {"kind": "baddump"}}
+    names = ["echo", "echo", "fail", "nope", "two", "slow", "slow", "fault", "sub", "bad"]
     sv["handlers"] = rng.random() < 0.4
     clients = []
     for ci in range(rng.randint(1, 4)):
@@ -686,6 +695,8 @@ def analyse_c13(program, s, run, verdict):
                 continue
             rid = json.dumps(e["id"]) if isinstance(e["id"], (str, int)) else None
             objs = by_id.get(rid, []) if rid is not None else []
+            if not isinstance(req, list) and isinstance(resp, dict):
+                objs = [resp]  # a single request has a single reply, whatever id it carries
             if len(objs) != 1:
                 continue
             want = "1.0" if ("jsonrpc" not in e or float(sver) < 2) else "2.0"
